@@ -200,7 +200,7 @@ def render_time(t, prec, ext, ndig=6, mark='.'):
     base = '%02d%s%02d%s%02d' % (t.hour, c, t.minute, c, t.second)
     if prec == 's':
         return base, D.time(t.hour, t.minute, t.second)
-    digits = ('%06d' % t.microsecond + '739')[:ndig]          # digits beyond microseconds are non-zero noise
+    digits = ('%06d' % t.microsecond + '739' + '5081' * 4)[:ndig]   # digits beyond microseconds are non-zero noise (any number of them)
     us = int((digits[:6] + '000000')[:6])
     return base + mark + digits, D.time(t.hour, t.minute, t.second, us)
 
